@@ -82,9 +82,23 @@ pub fn check_program(name: &str, p: &Program, acc: &mut Acc) {
             return;
         }
     };
-    let Ok(cfg) = &a.cfg else {
-        acc.count("cfg_error_excluded", 1);
-        return;
+    let cfg = match &a.cfg {
+        Ok(cfg) => cfg,
+        Err(e) => {
+            // Shapes that are well-formed by construction (every called label has a return it reaches, every
+            // label is defined once) must be analysed: a refusal hides all their functions at once
+            let well_formed = name == "trap-handler-family" || name == "shared-tail" || name == "shared-tail-family" || name == "generated:conforming" || name.starts_with("wf:");
+            if well_formed && a.parse_errors.is_empty() {
+                acc.violation(
+                    format!("C11|refused|{}|{name}", e.code),
+                    format!("a well-formed program ({name}) is refused with `{}`: none of its functions is analysed", e.title),
+                    json!({"shape": name, "program": pr.text}),
+                );
+            } else {
+                acc.count("cfg_error_excluded", 1);
+            }
+            return;
+        }
     };
     if !a.parse_errors.is_empty() {
         acc.count("parse_errors_excluded", 1);
